@@ -254,9 +254,9 @@ void w_moved(void *r, int dim, double to) { int k = verif_rect_index(r); __CPROV
 void h_writeback(void)
 {
   int pass, thirdPass; unsigned n, nfixed, fx[2]; double f[3];
-  __CPROVER_assume((pass == 0 || pass == 1) && (thirdPass == 0 || thirdPass == 1) && n <= 3 && nfixed <= 2 && fx[0] < 3 && fx[1] < 3);
+  __CPROVER_assume((pass == 0 || pass == 1 || pass == 2) && (thirdPass == 0 || thirdPass == 1) && n <= 3 && nfixed <= 2 && fx[0] < 3 && fx[1] < 3);
   for (int k = 0; k < 3; ++k) { __CPROVER_assume(!__CPROVER_isnand(f[k])); moved_n[k] = 0; moved_dim_ok[k] = 0; }
-  wb_pass = pass;
+  wb_pass = (pass == 1) ? 1 : 0;     /* pass 0 and 2 (third pass) write x, pass 1 writes y */
   w_writeback(pass, n, f[0], f[1], f[2], nfixed, fx[0], fx[1], thirdPass);
   for (unsigned k = 0; k < 3; ++k) {
     if (k < n) __CPROVER_assert(moved_n[k] == 1 && moved_dim_ok[k] && moved_to[k] == f[k], "SPEC every rectangle, fixed or not, is moved once to its variable's final position in the pass's dimension");
